@@ -219,14 +219,20 @@ def shrink(prog, calls, cfg, what, budget_s=60, log=None):
         d = still(prog, cs)
         if d:
             calls, best = cs, d
-    i = first
-    while i < len(calls) - 1 and time.time() - t0 < budget_s:
-        cs = calls[:i] + calls[i + 1:]
-        d = still(prog, cs)
-        if d:
-            calls, best = cs, d
-        else:
-            i += 1
+    # drop calls in chunks of decreasing size (a final-storage difference has no failing call to cut at)
+    last_fixed = 1 if "call" in best else 0          # the failing call itself stays
+    chunk = max(1, (len(calls) - first - last_fixed) // 2)
+    while chunk >= 1 and time.time() - t0 < budget_s * 0.6:
+        i = first
+        while i < len(calls) - last_fixed and time.time() - t0 < budget_s * 0.6:
+            hi_ = min(i + chunk, len(calls) - last_fixed)
+            cs = calls[:i] + calls[hi_:]
+            d = still(prog, cs) if hi_ > i and len(cs) > first else None
+            if d:
+                calls, best = cs, d
+            else:
+                i += chunk
+        chunk //= 2
     # in one step: every uncalled external function and every then unreferenced internal function
     p2, cs2 = _drop_unused(prog, calls)
     if p2 is not None:
